@@ -75,7 +75,7 @@ def scan_assumptions(text, mp):
     return out
 
 
-def run_v_unit(name, tier='quick', seed=0, extra_args=None):
+def run_v_unit(name, tier='quick', seed=0, extra_args=None, _inline=None):
     """Extract, splice, verify one unit. Returns a result dict; never raises for verification outcomes."""
     tmpl = os.path.join(CONTRACTS, name + '.vt')
     os.makedirs(BUILD, exist_ok=True)
@@ -87,7 +87,7 @@ def run_v_unit(name, tier='quick', seed=0, extra_args=None):
                wall_s=0.0, per_function=[], cmd='')
     t0 = time.time()
     try:
-        gen = rsx.build_unit(tmpl, REPO)
+        gen = rsx.build_unit(tmpl, REPO, inline=_inline)
     except rsx.ExtractError as ex:
         res['status'] = 'undecided'
         res['undecided'].append(f'extraction: {ex}')
@@ -132,6 +132,15 @@ def run_v_unit(name, tier='quick', seed=0, extra_args=None):
             continue
         if d.get('level') == 'error':
             diags.append(d)
+    # a refactor may have moved code into a helper function the unit does not know: retry once with such helpers inlined at
+    # their call sites (R13; only free functions of the unit's source files without early exits are eligible)
+    unknown = set()
+    for d in diags:
+        mo = re.match(r'cannot find function `(\w+)` in this scope', d['message'])
+        if mo:
+            unknown.add(mo.group(1))
+    if unknown and _inline is None:
+        return run_v_unit(name, tier, seed, extra_args, _inline=sorted(unknown))
     if j is None or 'verification-results' not in j:
         res['status'] = 'undecided'
         msgs = [d['message'] for d in diags][:5]
